@@ -1252,17 +1252,45 @@ def run(ctx):
 
 
 def settle_suspects(ctx, threshold=3):
-    """search verdicts that contradict the exact oracle: a handful per 100 000 calls are CBC hiccups (discarded and counted);
-    three or more in one run are a systematic disagreement between the library's search and the definition -> violations"""
+    """search verdicts that contradict the exact oracle.  For the plain/stable search (relaxation=None) each suspect is
+    ADJUDICATED: the call is repeated with the program captured; if the program is the proved one (PriceMIP) the solver is at
+    fault for that program (discarded and counted), otherwise the library is (violation) - see C12_mip.adjudicate.  For the
+    relaxed searches, whose programs are not captured yet, the count decides as before: a handful per 100 000 calls are CBC
+    hiccups; `threshold` or more in one run are a systematic disagreement -> violations."""
     sus = ctx.extra.pop("_suspects", [])
     ctx.extra["search_vs_oracle_suspects"] = len(sus)
+    plain = [v for v in sus if "relaxation" not in v.get("sig", {}) and v.get("cfg", {}).get("part") == "search"]
+    rest = [v for v in sus if v not in plain]
+    if plain:
+        from . import C12_mip
+
+        box = C12_mip.MipBox()
+        try:
+            for v in plain[:15]:
+                cfg, sig = v["cfg"], v["sig"]
+                try:
+                    verdict, why = C12_mip.adjudicate(box, Case.from_json(v["case"]), cfg.get("W"), bool(sig.get("stable")),
+                                                      bool(sig.get("exhaustive")), bool(sig.get("searched")))
+                except Exception as e:  # noqa: BLE001
+                    verdict, why = "undecided", repr(e)
+                ctx.count("suspect_adjudication", verdict)
+                if verdict == "solver_fault":
+                    ctx.solver_faults += 1
+                    ctx.extra.setdefault("adjudicated_solver_faults", []).append({"what": v["what"], "why": why, "cfg": cfg, "case": v["case"]})
+                elif verdict == "library":
+                    ctx.violations.append(dict(v, what=v["what"] + " - " + why))
+                else:
+                    rest.append(v)
+        finally:
+            box.close()
+        rest.extend(plain[15:])
     calls = sum(ctx.dist.get("search_mode", {}).values()) if isinstance(ctx.dist.get("search_mode"), dict) else 0
     threshold = max(threshold, calls // 4000)  # observed CBC hiccup rate on the unchanged tree: about 4 per 100 000 calls
     ctx.extra["search_vs_oracle_threshold"] = threshold
-    if len(sus) >= threshold:
-        ctx.violations.extend(sus[:20])
+    if len(rest) >= threshold:
+        ctx.violations.extend(rest[:20])
     else:
-        ctx.solver_faults += len(sus)
+        ctx.solver_faults += len(rest)
 
 
 def search(ctx, disagreements):
